@@ -32,15 +32,18 @@
            a second X509_verify_cert over the same store / parameters / chain), `hr ERR` (recorded:
            SSL_get_error class of the failed handshake, 0 = handshake completed)
         -> = start att=A new=N cfg=VMODE:HASCB:HOSTFLAGS:HOSTS:HOST:SNI calls=OK:DEPTH:ERR:RET,…
-             uh=DEPTH:ERR:ANS,… hs=H rc=R sec=S failed=F tls=T intf=I st=ST ev=EV clear=CL enc=CL
+             uh=DEPTH:ERR:ANS,… good=G hs=H rc=R failed=F tls=T intf=I sec=S st=ST ev=EV clear=CL enc=CL
+           (or `= start connect-failed RC` when xmpp_connect_* refuses)
         att  number of tls_new calls; new = tls_new returned an object; cfg = read back from the SSL
         object at the first SSL_connect; calls = verify-callback invocations (what _tls_verify
-        returned); uh = invocations of the user's certfail handler; hs = tls_start result; rc =
+        returned); uh = invocations of the user's certfail handler; good = OpenSSL reported no failure
+        at all in the accept-all run (- = no certificate was looked at); hs = tls_start result; rc =
         xmpp_conn_tls_start result (path d only); sec = xmpp_conn_is_secured; failed =
         conn->tls_failed; tls = conn->tls != NULL; intf = tls | sock | other; clear / enc = what
         the server received in the clear / through TLS since the previous report, classified:
         hdr starttls auth close probe junk x:<name>
-   probe        xmpp_send_raw_string("<probe/>") + 2 loop iterations -> = io sec= st= ev= clear= enc=
+   probe [raw]  xmpp_send_raw_string("<probe/>") (raw: xmpp_send_raw, which is not gated by the stream
+                negotiation) + 2 loop iterations -> = io sec= st= ev= clear= enc=
    tick MS      virtual clock += MS, 2 loop iterations               -> = io …
    end          release everything -> = end live=<blocks still allocated>
    ORACLE-FAIL lines: hyp-openssl <what> (the recorded run contradicts H-openssl), errstr,
@@ -512,6 +515,13 @@ static int srv_step(void)
         if (k < 0)
             return 0;
         srv.raw_after_tls = 1;
+        if (buf[0] != 22) {
+            /* not a TLS handshake record: the client goes on in the clear */
+            k = recv(srv.sfd, buf, sizeof(buf), 0);
+            if (k > 0)
+                gb_add(&srv.clear, buf, (size_t)k);
+            return 1;
+        }
         if (cfg.srv == SRV_OK) {
             if (srv_start_tls() < 0) {
                 fprintf(t_out, "ORACLE-FAIL setup server-ssl\n");
@@ -1261,6 +1271,13 @@ static void do_start(void)
         fputc('-', t_out);
     for (i = 0; i < ob.nuh; i++)
         fprintf(t_out, "%s%d:%d:%d", i ? "," : "", ob.uh[i].depth, ob.uh[i].err, ob.uh[i].ans);
+    {
+        int allgood = 1;
+        for (i = 0; i < ob.nfacts; i++)
+            if (!ob.facts[i].ok)
+                allgood = 0;
+        fprintf(t_out, " good=%s", ob.probed ? (allgood ? "1" : "0") : "-");
+    }
     fprintf(t_out, " hs=%s", ob.hs_done ? (ob.hs_ret ? "1" : "0") : "-");
     if (have_rc)
         fprintf(t_out, " rc=%d", rc);
@@ -1307,12 +1324,15 @@ int eng_tls(FILE *in, FILE *out)
             do_start();
             continue;
         }
-        if (n == 1 && !strcmp(tok[0], "probe")) {
+        if ((n == 1 || (n == 2 && !strcmp(tok[1], "raw"))) && !strcmp(tok[0], "probe")) {
             if (!e_conn) {
                 fprintf(out, "= bad-op\n");
                 continue;
             }
-            xmpp_send_raw_string(e_conn, "<probe/>");
+            if (n == 2)
+                xmpp_send_raw(e_conn, "<probe/>", 8);
+            else
+                xmpp_send_raw_string(e_conn, "<probe/>");
             loop_once();
             loop_once();
             report_io("= io");
